@@ -310,13 +310,16 @@ fn conv_level(t: &mut Tape<'_>, o: &ConvOpts, depth: usize, name: &str) -> CmdSp
                     lf = take(t, &mut longs).map(|s| s.to_owned());
                 }
             }
-            heads.push((n, aliases, sf, lf));
+            // an alias (visible or hidden) of the long flag
+            let lfa = if lf.is_some() && t.chance(1, 3) { take(t, &mut longs).map(|s| (s.to_owned(), t.bool())) } else { None };
+            heads.push((n, aliases, sf, lf, lfa));
         }
-        for (n, aliases, sf, lf) in heads {
+        for (n, aliases, sf, lf, lfa) in heads {
             let mut sc = conv_level(t, o, depth + 1, n);
             sc.aliases = aliases;
             sc.short_flag = sf;
             sc.long_flag = lf;
+            sc.long_flag_aliases.extend(lfa);
             c.subs.push(sc);
         }
     }
@@ -796,6 +799,8 @@ pub fn gen_invocation(t: &mut Tape<'_>, spec: &CmdSpec, io: &InvOpts) -> Invocat
 pub struct SpellStats {
     /// input: do not use --flag / -S forms for subcommands (they are not on C08's list of equivalences)
     pub no_flag_subcommand_forms: bool,
+    /// input: where a subcommand has a long flag, name it only through that flag, its aliases or their prefixes
+    pub only_long_flag_forms: bool,
     /// input (fault injection): spell this option's single value separated even with require_equals
     pub force_separated: Option<String>,
     /// input (fault injection): spell this no-value flag as `--long=x`
@@ -995,8 +1000,14 @@ pub fn spell(t: &mut Tape<'_>, spec: &CmdSpec, inv: &Invocation, stats: &mut Spe
                     forms.push(3);
                 }
             }
+            // (the same precedence applies to every long-flag spelling)
+            let claimed_by_arg = |sp: &str| {
+                level.settings.infer_long_args
+                    && level.args.iter().any(|a| a.long.iter().chain(a.aliases.iter().map(|x| &x.0)).any(|l| l.starts_with(sp)))
+            };
+            let usable_aliases: Vec<String> = sc.long_flag_aliases.iter().map(|x| x.0.clone()).filter(|a| !claimed_by_arg(a)).collect();
             if !stats.no_flag_subcommand_forms {
-                if !sc.long_flag_aliases.is_empty() {
+                if !usable_aliases.is_empty() {
                     forms.push(6);
                 }
                 if !sc.short_flag_aliases.is_empty() {
@@ -1009,6 +1020,22 @@ pub fn spell(t: &mut Tape<'_>, spec: &CmdSpec, inv: &Invocation, stats: &mut Spe
                     forms.push(5);
                     forms.push(5);
                 }
+            }
+            if level.settings.infer_subcommands && !sc.aliases.is_empty() {
+                forms.push(8);
+            }
+            let long_flag_shadowed = sc.long_flag.as_ref().map(|lf| {
+                level.settings.infer_long_args
+                    && level.args.iter().any(|a| a.long.iter().chain(a.aliases.iter().map(|x| &x.0)).any(|l| l.starts_with(lf.as_str())))
+            });
+            if level.settings.infer_subcommands && long_flag_shadowed == Some(false) && !stats.no_flag_subcommand_forms {
+                forms.push(9);
+            }
+            if stats.only_long_flag_forms && long_flag_shadowed == Some(false) {
+                // C08: both spellings of a pair name the subcommand through its long flag, an alias of it or a prefix
+                forms.retain(|f| matches!(f, 3 | 6 | 9));
+            } else if stats.only_long_flag_forms {
+                forms.retain(|f| matches!(f, 0 | 1 | 2 | 8));
             }
             match *t.pick(&forms) {
                 0 => argv.push(sc.name.clone().into_bytes()),
@@ -1044,7 +1071,41 @@ pub fn spell(t: &mut Tape<'_>, spec: &CmdSpec, inv: &Invocation, stats: &mut Spe
                 6 => {
                     stats.flag_subcommand = true;
                     stats.alias = true;
-                    argv.push(format!("--{}", t.pick(&sc.long_flag_aliases).0).into_bytes())
+                    argv.push(format!("--{}", t.pick(&usable_aliases)).into_bytes())
+                }
+                8 => {
+                    // an alias, or an unambiguous proper prefix of it (inference counts every spelling)
+                    let al = t.pick(&sc.aliases).0.clone();
+                    let chars: Vec<char> = al.chars().collect();
+                    let mut tok = al.clone();
+                    for n in (1..chars.len()).rev() {
+                        let p: String = chars[..n].iter().collect();
+                        if sub_spelling_prefix_unique(level, &p) && t.chance(1, 2) {
+                            tok = p;
+                            stats.prefix = true;
+                            break;
+                        }
+                    }
+                    stats.alias = true;
+                    argv.push(tok.into_bytes());
+                }
+                9 => {
+                    // the long flag or one of its aliases, or an unambiguous proper prefix of one of them
+                    let mut sp: Vec<String> = vec![sc.long_flag.clone().unwrap()];
+                    sp.extend(usable_aliases.iter().cloned());
+                    let full = t.pick(&sp).clone();
+                    let chars: Vec<char> = full.chars().collect();
+                    let mut tok = full.clone();
+                    for n in (1..chars.len()).rev() {
+                        let p: String = chars[..n].iter().collect();
+                        if long_flag_prefix_unique(level, &p) && t.chance(1, 2) {
+                            tok = p;
+                            stats.prefix = true;
+                            break;
+                        }
+                    }
+                    stats.flag_subcommand = true;
+                    argv.push(format!("--{tok}").into_bytes());
                 }
                 7 => {
                     stats.flag_subcommand = true;
@@ -1067,6 +1128,28 @@ pub fn spell(t: &mut Tape<'_>, spec: &CmdSpec, inv: &Invocation, stats: &mut Spe
 
 thread_local! {
     static PENDING_CLUSTER: std::cell::RefCell<Option<String>> = const { std::cell::RefCell::new(None) };
+}
+
+/// exactly one spelling (name or alias of any subcommand of the level) starts with `p`
+fn sub_spelling_prefix_unique(level: &CmdSpec, p: &str) -> bool {
+    let hits: usize = level.subs.iter().map(|sc| sc.all_names().iter().filter(|n| n.starts_with(p)).count()).sum();
+    hits == 1 && !"help".starts_with(p)
+}
+
+/// exactly one long-flag spelling (long flag or long-flag alias of a subcommand that has a long flag) starts with
+/// `p`, and no argument of the level or generated flag could claim `--p`
+fn long_flag_prefix_unique(level: &CmdSpec, p: &str) -> bool {
+    let mut hits = 0;
+    for sc in &level.subs {
+        if let Some(lf) = &sc.long_flag {
+            hits += usize::from(lf.starts_with(p));
+            hits += sc.long_flag_aliases.iter().filter(|a| a.0.starts_with(p)).count();
+        }
+    }
+    let claimed = level.args.iter().any(|a| a.long.iter().chain(a.aliases.iter().map(|x| &x.0)).any(|l| l.starts_with(p)))
+        || "help".starts_with(p)
+        || "version".starts_with(p);
+    hits == 1 && !claimed
 }
 
 fn sub_prefix_unique(level: &CmdSpec, p: &str, target: &str) -> bool {
